@@ -21,6 +21,10 @@ def K(n):
 
 
 def mc_cfg(nprocs, nkeys, budget, dev, extra, maxtotal=99):
+    if "ACTION_CONSTRAINT" in extra:
+        extra = extra.replace("ACTION_CONSTRAINT", "ACTION_CONSTRAINT EagerWdExit")
+    else:
+        extra += "ACTION_CONSTRAINT EagerWdExit\n"
     return """SPECIFICATION Spec
 CONSTANTS
   Procs = %s
@@ -76,6 +80,8 @@ def export_tests(ctx, nprocs, nkeys, budget, maxtotal, name):
     # (the AtRest stutter of the spec shows up as a self-loop labelled with the previous action: not a transition)
     lines = [e for e in (json.loads(x) for x in r.printed if x.startswith("{")) if edges.key(e["from"]) != edges.key(e["to"])]
     tests, ne, ns = edges.build_tests(lines)
+    # the watchdog's exit is not something the harness does: it is observed (wdexit lines, `wd` at the points of rest)
+    tests = [[s for s in t if s["act"]["a"] != "WdExit"] for t in tests if t[-1]["act"]["a"] != "WdExit"]
     ok = [t for t in tests if realizable(t)]
     return ok, dict(edges=ne, states=ns, paths=len(tests), realizable=len(ok))
 
